@@ -21,6 +21,7 @@ RULE = ("a real RF24Mesh master on a simulated radio; address requests injected 
         "first hop towards the requester really listens on (listening addresses learnt from real "
         "nodes). save_dhcp()/load_dhcp() round trips for every table size 0..255 in both formats. "
         "Non-trivial: >=1 lease granted or refused; distinct = distinct event histories.")
+RULE += (" Later rounds added: non-request frames and requests arriving while the master transmits, an exact release oracle, persistence after the saved table changed (same and new file).")
 REQUIRED = {"table_injective": 20000, "reply_checks": 5000, "release_reassign": 40,
             "persistence_roundtrip": 150, "persistence_after_changes": 500}
 BUDGET = {"quick": 480, "thorough": 900}
